@@ -1,79 +1,8 @@
-import FractopoModel.Basic.Wire
-import FractopoModel.Basic.Clip
-import FractopoModel.Generated.BranchesAndNodes
-import FractopoModel.Generated.NodeIdentity
-import FractopoModel.Generated.BranchIdentities
-import FractopoModel.Lemmas.SnapStage
+import FractopoModel.Exec.Pipe
 /-!
-# Runs the REGENERATED `branches_and_nodes` end to end (translator validation, stream S01-generated)
-
-`Gen.branches_and_nodes` (orchestration) with the regenerated `snap_traces` (and everything below it), the regenerated node-table
-and branch-label loops as its stages; cropping (`clipLine`), noding (split every trace at its exact contact points with the
-others) and lengths (float square roots, used only against the 2.01 t / 1.01 t minima) are the exact-geometry stand-ins for
-GEOS.  Output format = the model driver's `arr`.
+# Runs the REGENERATED `branches_and_nodes` end to end (translator validation, stream S01-generated); see `Exec/Pipe.lean`.
 -/
 open Wire
-
-def toFloat (q : Rat) : Float := Float.ofInt q.num / Float.ofNat q.den
-
-/-- length of a polyline as a rational with 1e-9 resolution (float square roots) -/
-def lenApprox (l : Polyline) : Rat :=
-  let f := ((segs l).map fun (a, b) => Float.sqrt (toFloat (Pt.dist2 a b))).foldl (· + ·) 0
-  ((f * 1e9).floor.toUInt64.toNat : Rat) / 1000000000
-
-/-- parameter of `p` along segment `(a, b)` (for ordering the cut points of one segment) -/
-def paramOn (a b p : Pt) : Rat := let d := b.sub a; Pt.dot (p.sub a) d / Pt.dot d d
-
-/-- split a polyline at the given points lying on it -/
-def splitAt (l : Polyline) (cuts : List Pt) : List Polyline :=
-  let step := fun (st : List Polyline × Polyline) (sg : Pt × Pt) =>
-    let (done, cur) := st
-    let (a, b) := sg
-    let here := ((cuts.filter fun p => onSeg p a b && p != a && p != b).eraseDups.map fun p => (paramOn a b p, p))
-    let sorted := here.foldl (fun acc x => (acc.filter fun y => y.1 < x.1) ++ [x] ++ (acc.filter fun y => !(y.1 < x.1))) []
-    let (done, cur) := sorted.foldl (fun (st : List Polyline × Polyline) x => (st.1 ++ [st.2 ++ [x.2]], [x.2])) (done, cur)
-    -- the segment's end: close the piece here when the vertex itself is a cut point
-    if cuts.contains b then (done ++ [cur ++ [b]], [b]) else (done, cur ++ [b])
-  match l with
-  | [] => []
-  | p0 :: _ =>
-    let (done, cur) := (segs l).foldl step ([], [p0])
-    (if cur.length ≥ 2 then done ++ [cur] else done)
-
-/-- exact noding: every trace split at its isolated contact points with the other traces -/
-def noding (traces : List Polyline) : List Polyline :=
-  (traces.zipIdx.flatMap fun (l, i) =>
-    let cuts := (traces.zipIdx.flatMap fun (m, j) => if i == j then [] else (SnapL.interPts l m).getD [])
-    splitAt l cuts).eraseDups
-
-/-- `gpipe t= areas= traces= clipped=0|1 allowed=` -/
-def gpipe (a : Args) : Option String := do
-  let t ← (a.get? "t") >>= parseRat?
-  let areas ← (a.get? "areas") >>= parseArea?
-  let traces ← (a.get? "traces") >>= parseLines?
-  let clipped := ((a.get? "clipped") >>= parseBool?).getD false
-  let allowed := ((a.get? "allowed") >>= parseNat?).getD 10
-  let rows := areas.filter fun r => !r.isEmpty
-  let t2 := t * t
-  let endsOf : List Polyline → List Pt := fun bs => bs.flatMap fun b => [b.headD default, b.getLastD default]
-  let nodeTable : List Polyline → List AreaRow → Rat → List Pt × List String := fun bs rws _ =>
-    let ends := endsOf bs
-    Gen.node_identities_from_branches (fun p row => AreaRow.boundaryDist2 row p) (fun p q => Pt.dist2 p q)
-      (fun p => (ends.zipIdx.filter fun x => x.1 == p).map (·.2)) id (default : Pt) ends rws t2
-  let branchLabels : List Polyline → List Pt → List String → Rat → List String := fun bs nodes ids _ =>
-    Gen.get_branch_identities (fun (_ : Polyline) => List.range nodes.length)
-      (fun n (b : Polyline) => min (Pt.dist2 n (b.headD default)) (Pt.dist2 n (b.getLastD default))) bs (fun i => nodes.getD i default) ids t2
-  let r := Gen.branches_and_nodes (fun (x : List Polyline) => x.eraseDups) (fun (row : AreaRow) => row) (fun _ => true)
-    (fun trs rws => trs.flatMap fun l => clipLine l (rws.flatMap id))
-    (fun tr thr polys => Gen.snap_traces SnapStageL.boundsE (SnapStageL.indexE .asc) SnapStageL.simpleSnapG SnapL.ends (SnapStageL.bdistC thr) (SnapStageL.distC thr)
-      (fun ep l => SnapL.onLine ep l) (fun l ep th => Snap.insertGeo l ep th) tr thr (some polys))
-    lenApprox noding (fun u => u.length != 1) (fun u => u.length == 1) id nodeTable branchLabels traces rows t allowed clipped (allowed + 2)
-  some (match r with
-    | .error e => s!"err={e}"
-    | .ok (brs, nds) =>
-      let nodeStr := ";".intercalate (nds.map fun (p, c) => s!"{showPt p}:{c}")
-      let brStr := ";".intercalate (brs.map fun (b, lab) => s!"{enc lab}:{showPt (b.headD default)}:{showPt (b.getLastD default)}")
-      s!"nodes={nodeStr} branches={brStr}")
 
 def dispatch (line : String) : String :=
   let toks := (line.trimAscii.toString.splitOn " ").filter (· ≠ "")
@@ -83,7 +12,7 @@ def dispatch (line : String) : String :=
     let a := parseArgs rest
     let r : Option String :=
       match cmd with
-      | "gpipe" => gpipe a
+      | "gpipe" => Exec.gpipe a
       | _ => some s!"error=unknown-command:{cmd}"
     r.getD "error=bad-arguments"
 
